@@ -767,6 +767,28 @@ func runCheck(prop, tier string) int {
 					conc = append(conc, prog)
 				}
 				sc.Segments = []Segment{{Kind: "calls", Seed: r.next(), MapMode: 4, Phases: [][][]Call{conc}}}
+				if tier == "thorough" {
+					// herd: 17..40 callers all encoding inputs that fill the same symbol size (bounded pools and
+					// semaphores sized "generously" only give way when this many large encodes overlap)
+					h := &Scenario{ID: 1_500_000 + gi, Seed: mix(seed, 994, uint64(gi)), Property: prop, Note: "capacity-boundary herd", Race: r.chance(0.2)}
+					var herd [][]Call
+					for wi := r.rangeIn(17, 40); wi > 0; wi-- {
+						herd = append(herd, []Call{g[r.intn(len(g))]})
+					}
+					h.Segments = []Segment{{Kind: "calls", Seed: r.next(), MapMode: 4, Phases: [][][]Call{herd}}}
+					drills = append(drills, h)
+					// readers: one scaled instance of such a symbol, observed by many callers at once
+					src := g[r.intn(len(g))]
+					shared := Call{Fn: "scale", Src: &src, I1: r.rangeIn(200, 420), Fill: 0}
+					shared.I2 = shared.I1
+					rd := &Scenario{ID: 1_600_000 + gi, Seed: mix(seed, 996, uint64(gi)), Property: prop, Note: "capacity-boundary readers", Race: r.chance(0.3)}
+					var readers [][]Call
+					for wi := r.rangeIn(4, 16); wi > 0; wi-- {
+						readers = append(readers, []Call{{Fn: "same", Src: &shared, Share: true}})
+					}
+					rd.Segments = []Segment{{Kind: "calls", Seed: r.next(), MapMode: 4, Shared: []Call{shared}, Phases: [][][]Call{readers}}}
+					drills = append(drills, rd)
+				}
 			}
 			drills = append(drills, sc)
 		}
